@@ -2,7 +2,7 @@
    Property theorems only; proofs are in proofs/ParamProofs.v. *)
 From Coq Require Import List NArith Bool Arith.
 Import ListNotations.
-From PV Require Import Regex Base LexTables NodeModel ParserBase ParserDecl ParserMain ParamProofs.
+From PV Require Import Regex Base LexTables NodeModel ParserBase ParserDecl ParserMain ParamProofs Generator GenParam.
 
 (* The whole parser commutes with every renaming g of positions and file names:
    re-laying out a program (which only changes positions / file names of the
@@ -20,3 +20,16 @@ Theorem C17_layout : forall (P Q: Type) fuel (items1: list (pitem P)) (items2: l
   outcome_map erase (parse_items fuel items1 e1 f1) = outcome_map erase (parse_items fuel items2 e2 f2).
 Proof. exact outcome_layout_independent. Qed.
 Print Assumptions C17_layout.
+
+(* "the regenerated C text is identical for all such variants": two ASTs that differ only in
+   coordinates generate the same text, for every AST and both generator configurations *)
+Theorem C17_regenerated_text : forall (A1 A2: Type) rp fuel (v1: value A1) (v2: value A2),
+  vmap A1 unit (fun _ => tt) v1 = vmap A2 unit (fun _ => tt) v2 ->
+  match generate A1 rp fuel v1, generate A2 rp fuel v2 with
+  | GOk x, GOk y => x = y
+  | GCrash, GCrash => True
+  | GFuel, GFuel => True
+  | _, _ => False
+  end.
+Proof. exact gen_same_text_up_to_coords. Qed.
+Print Assumptions C17_regenerated_text.
